@@ -603,6 +603,40 @@ func memberPairDocs() []c06Placed {
 	return r
 }
 
+// jsonNumberBombs: numbers whose spelling is short but whose exact integer /
+// decimal expansion is huge (exponents up to 10^9), very long digit strings,
+// in every numeric member of the claims documents and of a helper shape, and
+// in a text / array position.
+func jsonNumberBombs() []c06Placed {
+	nums := []string{"1e400", "1e2000000", "1E+2000000", "1.0e2000000", "1.5e4000000", "-1e2000000", "1e99999999", "1e999999999", "1e-2000000", "0e999999999", "12288e-0", "1.2288e4",
+		"1" + strings.Repeat("0", 60000), "0." + strings.Repeat("0", 60000) + "1", strings.Repeat("9", 30000) + "e-29990", "1e2147483647", "1e2147483648", "1e-2147483649", "1e18446744073709551616"}
+	var r []c06Placed
+	for _, base := range c05JSONBases() {
+		root, err := parseJN(base.doc)
+		if err != nil {
+			continue
+		}
+		fams := []string{"json"}
+		if base.name == "ShapeFlat" {
+			fams = []string{"enc-json"}
+		}
+		for si, sl := range jsonSlots(root) {
+			k := sl.get().kind
+			if k != '0' && !(k == 's' && si%3 == 0) {
+				continue
+			}
+			for ni, n := range nums {
+				c := root.clone()
+				jsonSlots(c)[si].set(jNum(n))
+				for _, f := range fams {
+					r = append(r, c06Placed{f, fmt.Sprintf("%s/%s=number#%d", base.name, sl.path, ni), []byte(c.String())})
+				}
+			}
+		}
+	}
+	return r
+}
+
 func nestings() []c06Placed {
 	var r []c06Placed
 	rep := func(unit []byte, d int, tail []byte) []byte {
@@ -924,9 +958,9 @@ func c06Report(t testing.TB, pl *c06Pool, v string, in c06In) {
 }
 
 func TestC06_Bombs(t *testing.T) {
-	st := NewStats("C06", "TestC06_Bombs", "enumeration, measured in an address-space-limited single-goroutine worker process (TotalAlloc delta and wall time per input): header bombs = every major type 2..6 x additional-info 24..27 x declared length in {0x80,0xff,2^8,2^16-1,2^16,2^24,2^31,2^32-1,2^32,2^63,2^64-1} x 0..16 following bytes, placed at top level and at every structural position of a valid token of both profiles (5 claim values, a component field, an unknown key's value, COSE payload / protected / unprotected / signature / tag content / protected-header content / unprotected-header value); declared lengths that wrap around when converted or added (2^64-k for k=1..16 and others, 2^63+-k, 2^32-k, 2^31+-k) as value / key / element of definite and indefinite-length containers; claims documents with two members changed at once (one null / empty, one of a wrong type); nesting of arrays, maps, tags, indefinite containers to depth 8..32000 and JSON arrays/objects to depth 8..65536 (closed and unclosed, top level and inside claims); 4 KiB..60 KiB strings, 1000..16000-key maps (distinct and duplicate keys), 700-component and 60000-null component lists; every 1- and 2-byte input that starts with a tag head and valid documents wrapped 1..3 deep in 42 tag numbers of every head width (termination of the hand-written tag skipping). Every input goes to every entry point of its family (COSE, claims CBOR incl. per-type unmarshal and extension types, claims JSON, populate helpers). Violation: a call allocates more than 1 MiB + 1 KiB per input byte, or takes > 5 s (re-measured in 3 fresh processes), or the worker dies with an out-of-memory fatal error. Non-trivial = declares more data than it carries, or nests >= 8 deep, or >= 4 KiB; distinct = family + input")
+	st := NewStats("C06", "TestC06_Bombs", "enumeration, measured in an address-space-limited single-goroutine worker process (TotalAlloc delta and wall time per input): header bombs = every major type 2..6 x additional-info 24..27 x declared length in {0x80,0xff,2^8,2^16-1,2^16,2^24,2^31,2^32-1,2^32,2^63,2^64-1} x 0..16 following bytes, placed at top level and at every structural position of a valid token of both profiles (5 claim values, a component field, an unknown key's value, COSE payload / protected / unprotected / signature / tag content / protected-header content / unprotected-header value); declared lengths that wrap around when converted or added (2^64-k for k=1..16 and others, 2^63+-k, 2^32-k, 2^31+-k) as value / key / element of definite and indefinite-length containers; claims documents with two members changed at once (one null / empty, one of a wrong type); JSON numbers with exponents up to 10^9 and 60000-digit spellings in every numeric member; nesting of arrays, maps, tags, indefinite containers to depth 8..32000 and JSON arrays/objects to depth 8..65536 (closed and unclosed, top level and inside claims); 4 KiB..60 KiB strings, 1000..16000-key maps (distinct and duplicate keys), 700-component and 60000-null component lists; every 1- and 2-byte input that starts with a tag head and valid documents wrapped 1..3 deep in 42 tag numbers of every head width (termination of the hand-written tag skipping). Every input goes to every entry point of its family (COSE, claims CBOR incl. per-type unmarshal and extension types, claims JSON, populate helpers). Violation: a call allocates more than 1 MiB + 1 KiB per input byte, or takes > 5 s (re-measured in 3 fresh processes), or the worker dies with an out-of-memory fatal error. Non-trivial = declares more data than it carries, or nests >= 8 deep, or >= 4 KiB; distinct = family + input")
 	st.Exhaustive = true
-	st.Require = []string{"bomb", "wrap-around", "member-pair", "nesting", "big", "tag-wrapped", "error-path", "family=cbor", "family=cose", "family=json", "family=enc-cbor", "family=enc-json"}
+	st.Require = []string{"bomb", "wrap-around", "member-pair", "json-number", "nesting", "big", "tag-wrapped", "error-path", "family=cbor", "family=cose", "family=json", "family=enc-cbor", "family=enc-json"}
 	defer st.Flush(t)
 	pl := &c06Pool{}
 	defer pl.drop()
@@ -951,6 +985,9 @@ func TestC06_Bombs(t *testing.T) {
 	}
 	for _, p := range memberPairDocs() {
 		run(p, "member-pair")
+	}
+	for _, p := range jsonNumberBombs() {
+		run(p, "json-number")
 	}
 	for _, p := range nestings() {
 		run(p, "nesting")
